@@ -12,9 +12,9 @@ import (
 	"github.com/tendermint/tendermint/crypto/tmhash"
 	vp "github.com/tendermint/tendermint/internal/verifvp"
 	tmproto "github.com/tendermint/tendermint/proto/tendermint/types"
+	tmversion "github.com/tendermint/tendermint/proto/tendermint/version"
 	sm "github.com/tendermint/tendermint/state"
 	"github.com/tendermint/tendermint/types"
-	tmversion "github.com/tendermint/tendermint/proto/tendermint/version"
 	"github.com/tendermint/tendermint/version"
 )
 
@@ -150,6 +150,25 @@ func (e *vpEnv) dve(who int, h int64, variant byte) *types.DuplicateVoteEvidence
 	return types.NewDuplicateVoteEvidence(a, b, vpBlockTime(h), e.vals)
 }
 
+// genuine duplicate-vote evidence whose two votes name the same block hash with different part-set
+// headers (an equivocation all the same: the block ids differ)
+func (e *vpEnv) dveSameHash(who int, h int64) *types.DuplicateVoteEvidence {
+	idx, _ := e.vals.GetByAddress(e.keys[who].PubKey().Address())
+	mk := func(pshTag byte) *types.Vote {
+		bh, ph := make([]byte, 32), make([]byte, 32)
+		bh[0], ph[0] = 0x33, pshTag
+		v := &types.Vote{Type: tmproto.PrecommitType, Height: h, Round: 0, Timestamp: vpBlockTime(h), ValidatorAddress: e.keys[who].PubKey().Address(), ValidatorIndex: idx,
+			BlockID: types.BlockID{Hash: bh, PartSetHeader: types.PartSetHeader{Total: 1, Hash: ph}}}
+		sig, err := e.keys[who].Sign(types.VoteSignBytes(vpChain, v.ToProto()))
+		if err != nil {
+			panic(err)
+		}
+		v.Signature = sig
+		return v
+	}
+	return types.NewDuplicateVoteEvidence(mk(0x91), mk(0x12), vpBlockTime(h), e.vals)
+}
+
 // genuine light-client-attack evidence (equivocation at height h: a second, correctly derived header
 // with another data hash, committed by the same validators in the same round)
 func (e *vpEnv) lca(h int64) *types.LightClientAttackEvidence {
@@ -261,7 +280,7 @@ func vpC11Lifecycle(k int, withLCA bool) {
 	if err != nil {
 		panic(err)
 	}
-	items := []types.Evidence{e.dve(0, 8, 1), e.dve(1, 9, 2)}
+	items := []types.Evidence{e.dve(0, 8, 1), e.dveSameHash(1, 9)}
 	if withLCA {
 		items = append(items, e.lca(9))
 	}
@@ -324,7 +343,11 @@ func vpC11Lifecycle(k int, withLCA bool) {
 			vp.Reach("block")
 		case 3: // consensus reports conflicting votes it saw (the votes of one of the duplicate-vote items)
 			d := items[vp.Choice("reported", 2)].(*types.DuplicateVoteEvidence)
-			pool.ReportConflictingVotes(d.VoteA, d.VoteB)
+			if vp.Bool("reported-in-the-other-order") {
+				pool.ReportConflictingVotes(d.VoteB, d.VoteA)
+			} else {
+				pool.ReportConflictingVotes(d.VoteA, d.VoteB)
+			}
 		case 4: // restart on the same database
 			pool, err = NewPool(e.db, e.ss, e.bs)
 			if err != nil {
